@@ -11,13 +11,15 @@ use std::sync::atomic::{AtomicU64, Ordering};
 use vkit::{bad, ok, ok_trivial, Run, Verdict};
 
 /// index paths (all stage 0; no file/directory conflicts among them)
-const PATHS: [&str; 16] =
-    [".gitattributes", "A", "a*", "ab", "b", "a/a", "a/A", "a/b", "a/ab", "a/d/b", "a/d/e", "B/b", "c/a", "c/a*", "c/b", "c/d/ab"];
-const ATTRIBUTES: &str = "*b x\na/a x=v\nc/* -x\n";
+const PATHS: [&str; 17] =
+    [".gitattributes", "A", "a*", "ab", "b", "a/a", "a/A", "a/b", "a/ab", "a/d/b", "a/d/e", "B/b", "c/a", "c/a*", "c/b", "c/d/ab", "d/a"];
+/// resulting attribute sets: only x: ab b a/d/b c/d/ab | x,-y: B/b | only y: A a/A | x,y: a/b a/ab | x=v,y: a/a | x=v: d/a |
+/// -x: c/a* c/b | -x,y: c/a | x explicitly unspecified (!x): a/d/e | nothing: .gitattributes a*
+const ATTRIBUTES: &str = "*b x\na/a x=v\nd/a x=v\nc/* -x\na/* y\nA y\nc/a y\nB/b -y\na/d/e !x\n";
 
 /// quick alphabet = the first QUICK_SPECS entries
-const QUICK_SPECS: usize = 17;
-const SPECS: [&str; 30] = [
+const QUICK_SPECS: usize = 22;
+const SPECS: [&str; 39] = [
     "a",
     "a/",
     "b",
@@ -35,6 +37,12 @@ const SPECS: [&str; 30] = [
     ".",
     "a/*",
     ":(glob)a/**",
+    // several attribute requirements: all of them have to hold
+    ":(attr:x y)",
+    ":(attr:x -y)",
+    ":(attr:x=v y)",
+    ":(attr:!x y)",
+    ":(exclude,attr:x y)",
     // thorough only
     "ab",
     "a/d",
@@ -49,9 +57,13 @@ const SPECS: [&str; 30] = [
     ":(top,exclude)a/d",
     ":(attr:-x)c",
     "../ab",
+    ":(attr:!x)",
+    ":(attr:x !y)",
+    ":(attr:y -x)c",
+    ":(exclude,attr:-x y)",
 ];
 /// sub-alphabet for lists of three (thorough)
-const TRIPLE_SPECS: [&str; 8] = ["a", "*b", ":(glob)a/*", ":(icase)A", ":(exclude)a/b", ":!b", ":(top)a", ":(attr:x)"];
+const TRIPLE_SPECS: [&str; 9] = ["a", "*b", ":(glob)a/*", ":(icase)A", ":(exclude)a/b", ":!b", ":(top)a", ":(attr:x)", ":(attr:x y)"];
 
 #[derive(Serialize, Deserialize, Hash, Clone, Debug)]
 struct SpecCase {
